@@ -195,6 +195,7 @@ class Solver:
             )
         else:
             initial_time = Time(value=0, unit=time_discretization.unit)
+            self.__powertrain_is_locked = False
             self.__powertrain.update_time(initial_time)
             self._compute_powertrain_variables(motor_control=motor_control)
 
